@@ -67,6 +67,56 @@ func init() { register(Engine{"stall", runStall}) }
 
 var errInjected = errors.New("injected transport failure")
 
+// the reason handed to cause-carrying contexts (WithCancelCause / WithTimeoutCause / WithDeadlineCause):
+// context.Cause(ctx) is then this error, ctx.Err() stays Canceled / DeadlineExceeded -- "the context's own error"
+var errStallCause = errors.New("stall: caller-supplied cancellation reason")
+
+// context kinds, a dimension of every schedule
+const (
+	ckPlain = iota // WithCancel / WithTimeout / WithDeadline
+	ckCause        // WithCancelCause(reason) / WithTimeoutCause / WithDeadlineCause
+	ckChild        // a derived context (WithValue + WithCancel) of a cause-carrying one; the PARENT fires
+	ckKinds
+)
+
+var ckNames = [ckKinds]string{"plain", "cause", "cause-child"}
+
+// stallCtx builds the context of one run. fire cancels it (with the reason, for the cause-carrying
+// kinds); release frees its resources. deadline: zero = none.
+func stallCtx(kind int, deadline time.Time) (ctx context.Context, fire func(), release func()) {
+	type ctxKey struct{}
+	switch kind {
+	case ckCause, ckChild:
+		var rel []func()
+		if deadline.IsZero() {
+			c, cc := context.WithCancelCause(context.Background())
+			ctx, fire = c, func() { cc(errStallCause) }
+			rel = append(rel, func() { cc(nil) })
+		} else {
+			c, cancel := context.WithDeadlineCause(context.Background(), deadline, errStallCause)
+			ctx, fire = c, cancel
+			rel = append(rel, cancel)
+		}
+		if kind == ckChild {
+			child, cancel := context.WithCancel(context.WithValue(ctx, ctxKey{}, 1))
+			ctx = child
+			rel = append(rel, cancel)
+		}
+		release = func() {
+			for i := len(rel) - 1; i >= 0; i-- {
+				rel[i]()
+			}
+		}
+		return
+	}
+	if deadline.IsZero() {
+		c, cancel := context.WithCancel(context.Background())
+		return c, cancel, cancel
+	}
+	c, cancel := context.WithDeadline(context.Background(), deadline)
+	return c, cancel, cancel
+}
+
 // panics of the counterpart goroutine (context.Background side of a run), recovered so that the engine goes on
 var (
 	stallPeerPanics   atomic.Int64
@@ -196,7 +246,7 @@ type guardCtx struct {
 	context.Context
 	conn   *stallConn
 	at     int
-	cancel context.CancelFunc
+	cancel func()
 	fired  atomic.Bool
 }
 
@@ -239,6 +289,11 @@ type stallSubject struct {
 	// expectErr: the fault-free run legitimately ends with a (non-context) error (negotiation failure)
 	expectErr bool
 	setup     func() (*stallInst, error)
+	// concurrent: the operation runs while other handshakes of the same cache and key are in flight
+	// (stall_concurrent.go); judged by the property oracle only. enterBound: how long the run is given
+	// to reach its own stalled step before the cancel fires anyway (0: stallSetupBound, no early fire)
+	concurrent bool
+	enterBound time.Duration
 }
 
 // --- plain message exchange ---------------------------------------------------------------
@@ -708,6 +763,7 @@ type stallPlan struct {
 	k       int
 	timeout time.Duration
 	scale   int // liveness bounds are multiplied by this (0 = 1); 10 when a late run is repeated on its own
+	ck      int // context kind (ckPlain, ckCause, ckChild)
 }
 
 func waitClosed(sc *stallConn, bound time.Duration) bool {
@@ -727,6 +783,10 @@ func stallExec(sub stallSubject, pl stallPlan) (o stallObs) {
 		scale = time.Duration(pl.scale)
 	}
 	stallReturnBound, stallCloseBound, stallSetupBound := stallReturnBound*scale, stallCloseBound*scale, stallSetupBound*scale
+	enterBound := stallSetupBound
+	if sub.enterBound > 0 {
+		enterBound = sub.enterBound * scale
+	}
 	inst, err := sub.setup()
 	if err != nil {
 		o.setupErr = err
@@ -745,24 +805,23 @@ func stallExec(sub stallSubject, pl stallPlan) (o stallObs) {
 	case "nofault-bg", "never", "ioerr-bg":
 		ctx = context.Background()
 	case "guard":
-		inner, c := context.WithCancel(context.Background())
-		cancel = c
-		ctx = &guardCtx{Context: inner, conn: sc, at: pl.k, cancel: c}
+		inner, f, rel := stallCtx(pl.ck, time.Time{})
+		cancel = rel
+		ctx = &guardCtx{Context: inner, conn: sc, at: pl.k, cancel: f}
 	case "dline":
-		ctx, cancel = context.WithTimeout(context.Background(), pl.timeout)
+		ctx, _, cancel = stallCtx(pl.ck, time.Now().Add(pl.timeout))
 	case "past-dline":
-		ctx, cancel = context.WithDeadline(context.Background(), time.Now().Add(-time.Second))
+		ctx, _, cancel = stallCtx(pl.ck, time.Now().Add(-time.Second))
 		sc.markFired()
 	case "past-cancel":
-		var c context.CancelFunc
-		ctx, c = context.WithCancel(context.Background())
+		var f func()
+		ctx, f, cancel = stallCtx(pl.ck, time.Time{})
 		sc.markFired()
-		c()
+		f()
 	default:
-		var c context.CancelFunc
-		ctx, c = context.WithCancel(context.Background())
-		cancel = c
-		fire = func() { sc.markFired(); c() }
+		var f func()
+		ctx, f, cancel = stallCtx(pl.ck, time.Time{})
+		fire = func() { sc.markFired(); f() }
 	}
 	defer cancel()
 	switch pl.sched {
@@ -836,11 +895,20 @@ func stallExec(sub stallSubject, pl stallPlan) (o stallObs) {
 		case r := <-resCh: // returned before reaching the stall (deadline passed early, or an error)
 			finish(r)
 			got = true
-		case <-time.After(stallSetupBound):
+		case <-time.After(enterBound):
 		}
 	}
 	switch {
 	case got:
+	case pl.sched == "during" && !o.entered && sub.concurrent:
+		// the operation is blocked somewhere before its stalled step (it has issued o.io calls): the
+		// cancel fires all the same -- "no matter at which read or write the peer stalls" -- and must
+		// unblock it
+		firedAt = time.Now()
+		fire()
+		if !awaitReturn(stallReturnBound) {
+			o.retLate = true
+		}
 	case pl.sched == "during" && o.entered:
 		firedAt = time.Now()
 		fire()
@@ -866,6 +934,17 @@ func stallExec(sub stallSubject, pl stallPlan) (o stallObs) {
 		}
 	default:
 		bound := stallSetupBound
+		if sub.concurrent && strings.HasPrefix(pl.sched, "past") {
+			bound = stallReturnBound // the context had fired before the operation began
+		}
+		if dl, has := ctx.Deadline(); sub.concurrent && pl.sched == "dline" && has {
+			// blocked before its own stalled step: the deadline passes all the same
+			firedAt = dl
+			bound = stallReturnBound
+			if u := time.Until(dl); u > 0 {
+				bound += u
+			}
+		}
 		if strings.HasPrefix(pl.sched, "ioerr") && !sub.plain {
 			// a handshake may swallow the failure and then wait for a peer that is itself waiting
 			// (nothing was cancelled): that is "blocked", and it is not worth seconds
@@ -970,11 +1049,17 @@ type stallJob struct {
 }
 
 func (j *stallJob) label() string {
+	if j.plan.ck != ckPlain {
+		return fmt.Sprintf("%s %s[%s-context] k=%d/%d", j.sub.name, j.plan.sched, ckNames[j.plan.ck], j.plan.k, len(j.trace))
+	}
 	return fmt.Sprintf("%s %s k=%d/%d", j.sub.name, j.plan.sched, j.plan.k, len(j.trace))
 }
 
 // opLine renders the model operation that corresponds to the schedule as it was realised.
 func (j *stallJob) opLines() (ops, real []string) {
+	if j.sub.concurrent {
+		return nil, nil // property oracle only (stall_concurrent.go)
+	}
 	n, k := len(j.trace), j.plan.k
 	verb := "hs"
 	if j.sub.plain {
@@ -1072,7 +1157,7 @@ func stallViolate(c *Ctx, seen map[string]int, v Violation) {
 }
 
 func runStall(c *Ctx) (err error) {
-	c.Res.Rule = "real stream operations and real Client/Server handshakes (shapes: no-auth clear/AES, CLAIMTOBE, FS, TOKEN, SSL, SSL->CLAIMTOBE fallback through both retry loops, session resumption, negotiation failure; both roles) and plain exchanges (single/multi-frame send and receive through every receive API, secrets, files, typed messages; clear and AES-GCM) over a pipe whose k-th read or write stalls, fails, or fires the cancel: for every shape a fault-free trace of n I/O calls, then every k<n under the schedules guard (cancel exactly at the entry guard of step k), during (cancel while blocked), dline (deadline passes while blocked), race (cancel inside the call, before stop()), plus never/unfired (must block), after (peer resumes, then cancel, then one more operation), ioerr (injected failure under Background and unfired contexts), past (already cancelled / deadline passed); each run compared with the Lean model (result, connection closed, I/O calls issued) and judged by the property oracle (returns within a generous bound, error Is the context's error for plain operations, connection closed, no I/O after the cancel, Background adds nothing); distinct by subject+schedule+k; non-trivial = the context fired or the call stalled/failed"
+	c.Res.Rule = "real stream operations and real Client/Server handshakes (shapes: no-auth clear/AES, CLAIMTOBE, FS, TOKEN, SSL, SSL->CLAIMTOBE fallback through both retry loops, session resumption, negotiation failure; both roles) and plain exchanges (single/multi-frame send and receive through every receive API, secrets, files, typed messages; clear and AES-GCM) over a pipe whose k-th read or write stalls, fails, or fires the cancel: for every shape a fault-free trace of n I/O calls, then every k<n under the schedules guard (cancel exactly at the entry guard of step k), during (cancel while blocked), dline (deadline passes while blocked), race (cancel inside the call, before stop()), plus never/unfired (must block), after (peer resumes, then cancel, then one more operation), ioerr (injected failure under Background and unfired contexts), past (already cancelled / deadline passed); CONCURRENT handshakes: a client handshake under these schedules while 1-2 other client handshakes sharing its session cache and cache key (tag, peer, command) are stalled for good, the first at every step k0 of the shape (property oracle only); every schedule under three KINDS of context: plain (WithCancel/WithDeadline), cause-carrying (WithCancelCause / WithDeadlineCause with a caller-supplied reason: context.Cause differs from ctx.Err()) and a derived child of a cause-carrying context; each run compared with the Lean model (result, connection closed, I/O calls issued) and judged by the property oracle (returns within a generous bound, error Is the context's error for plain operations, connection closed, no I/O after the cancel, Background adds nothing); distinct by subject+schedule+k; non-trivial = the context fired or the call stalled/failed"
 	defer func() {
 		if p := recover(); p != nil {
 			c.Violate(Violation{Property: "C13", Key: "C13:panic:stall-engine", What: "panic in the stall engine or the library", Observed: fmt.Sprintf("%v\n%s", p, debug.Stack())})
@@ -1173,7 +1258,32 @@ func runStall(c *Ctx) (err error) {
 	for _, sub := range usable {
 		tr := traces[sub.name]
 		n := len(tr)
-		add := func(p stallPlan) { todo = append(todo, &stallJob{sub: sub, trace: tr, plan: p}) }
+		// the context KIND is a dimension of every schedule: plain, cause-carrying (WithCancelCause /
+		// WithDeadlineCause with a caller-supplied reason), and a derived child of a cause-carrying one.
+		// Quick tier: the kinds rotate over (schedule, k), so every schedule meets every kind on every
+		// subject with >= 3 steps; thorough: the schedules in which the context fires run under all three.
+		ckRot := int(c.Seed) + len(usable) + n
+		schedIdx := map[string]int{"guard": 0, "during": 1, "race": 2, "dline": 3, "unfired": 4, "ioerr-live": 5, "after": 6}
+		rep := map[string]int{}
+		add := func(p stallPlan) {
+			fires := p.sched == "guard" || p.sched == "during" || p.sched == "race" || p.sched == "dline" || strings.HasPrefix(p.sched, "past")
+			if p.sched == "never" || p.sched == "ioerr-bg" {
+				todo = append(todo, &stallJob{sub: sub, trace: tr, plan: p}) // context.Background: no kind
+				return
+			}
+			if c.Thorough() && fires && sub.plain {
+				for ck := 0; ck < ckKinds; ck++ {
+					q := p
+					q.ck = ck
+					todo = append(todo, &stallJob{sub: sub, trace: tr, plan: q})
+				}
+				return
+			}
+			rk := fmt.Sprintf("%s|%d", p.sched, p.k)
+			p.ck = (ckRot + schedIdx[p.sched] + p.k + rep[rk]) % ckKinds
+			rep[rk]++
+			todo = append(todo, &stallJob{sub: sub, trace: tr, plan: p})
+		}
 		hsTimeout := func() time.Duration {
 			if sub.plain {
 				return time.Duration(15+c.Rng.Intn(20)) * time.Millisecond
@@ -1205,8 +1315,51 @@ func runStall(c *Ctx) (err error) {
 				add(stallPlan{sched: "after", k: k})
 			}
 		}
-		add(stallPlan{sched: "past-cancel"})
-		add(stallPlan{sched: "past-dline"})
+		for ck := 0; ck < ckKinds; ck++ {
+			todo = append(todo, &stallJob{sub: sub, trace: tr, plan: stallPlan{sched: "past-cancel", ck: ck}},
+				&stallJob{sub: sub, trace: tr, plan: stallPlan{sched: "past-dline", ck: ck}})
+		}
+	}
+	// ---- concurrent handshakes (stall_concurrent.go): the same schedules for a handshake that runs while
+	// 1-2 others of the same cache and key are stalled; traces are those of the lone handshake
+	{
+		csubs, ctr := concurrentSubjects(c, hsShapes(mat), traces)
+		if only := os.Getenv("VERIF_STALL_ONLY"); only != "" {
+			var keep []stallSubject
+			for _, s := range csubs {
+				if strings.Contains(s.name, only) {
+					keep = append(keep, s)
+				}
+			}
+			csubs = keep
+		}
+		for si, sub := range csubs {
+			tr := ctr[sub.name]
+			n := len(tr)
+			traces[sub.name] = tr
+			js := []int{0, n / 2, n - 1}
+			if c.Thorough() {
+				js = append(js, c.Rng.Intn(n), c.Rng.Intn(n))
+			}
+			x := si + int(c.Seed)
+			add := func(p stallPlan) {
+				x++
+				p.ck = x % ckKinds
+				todo = append(todo, &stallJob{sub: sub, trace: tr, plan: p})
+			}
+			for ji, j := range js {
+				if !c.Thorough() && (ji+si+int(c.Seed))%3 != 0 {
+					// quick tier: one own step per subject for the timing-bound schedules (rotating), all for past-*
+					continue
+				}
+				add(stallPlan{sched: "during", k: j})
+				add(stallPlan{sched: "dline", k: j, timeout: time.Duration(50+c.Rng.Intn(40)) * time.Millisecond})
+				add(stallPlan{sched: "guard", k: j})
+			}
+			add(stallPlan{sched: "past-cancel"})
+			add(stallPlan{sched: "past-dline"})
+			c.Count("concurrent-subjects")
+		}
 	}
 	// deterministic order of execution, shuffled so that slow shapes spread over the workers
 	c.Rng.Shuffle(len(todo), func(i, j int) { todo[i], todo[j] = todo[j], todo[i] })
@@ -1274,7 +1427,19 @@ func runStall(c *Ctx) (err error) {
 		if j.sub.plain {
 			kind = "plain"
 		}
+		if j.sub.concurrent {
+			kind = "hs-concurrent"
+			if fired0 := j.plan.sched == "during" || j.plan.sched == "dline"; fired0 && !o.entered && o.setupErr == nil {
+				c.Count("hs-concurrent:own-stalled-step-not-reached")
+			}
+		}
 		c.Count("sched:" + j.plan.sched)
+		if j.plan.sched != "nofault-bg" && j.plan.sched != "never" && j.plan.sched != "ioerr-bg" {
+			c.Count("context-kind:" + ckNames[j.plan.ck])
+			if kind0 := map[bool]string{true: "plain", false: "hs"}[j.sub.plain]; j.plan.ck != ckPlain {
+				c.Count("context-kind:" + ckNames[j.plan.ck] + ":" + kind0 + ":" + j.plan.sched)
+			}
+		}
 		c.Count("kind:" + kind)
 		c.Count("ret:" + strings.SplitN(o.ret, ":", 2)[0] + func() string {
 			if strings.HasPrefix(o.ret, "ctx:") || strings.HasPrefix(o.ret, "io:") {
@@ -1304,7 +1469,9 @@ func runStall(c *Ctx) (err error) {
 			maxRet = o.retAfter
 		}
 		ops, real := j.opLines()
-		if ops == nil {
+		if ops == nil && j.sub.concurrent {
+			c.Count("model-skipped:concurrent-handshake(property-oracle-only)")
+		} else if ops == nil {
 			c.Count("model-skipped:ioerr-swallowed-then-failed")
 		}
 		replay := append([]string{"# " + j.label() + " trace=" + j.trace}, ops...)
@@ -1406,7 +1573,7 @@ func runStall(c *Ctx) (err error) {
 			}
 		}
 		nontrivial := fired || j.plan.sched == "never" || j.plan.sched == "unfired" || strings.HasPrefix(j.plan.sched, "ioerr") || j.plan.sched == "after"
-		c.Distinct(fmt.Sprintf("%s|%s|%d", shape, j.plan.sched, j.plan.k), nontrivial)
+		c.Distinct(fmt.Sprintf("%s|%s|%d|%d", shape, j.plan.sched, j.plan.k, j.plan.ck), nontrivial)
 		if ops != nil {
 			cases = append(cases, Case{Label: j.label(), Ops: ops, Real: real})
 		}
